@@ -64,7 +64,7 @@ PROPS = {
     "C17": P("stableconc", "TestC17"),
     # stabletext: lexer/parser level
     "C11": P("stabletext", "TestC11"),
-    "C12": P("stabletext", "TestC12", batches=(4, 16), workers=4),
+    "C12": P("stabletext", "TestC12", batches=(16, 16), workers=1),
     "C13": P("stabletext", "TestC13"),
     "C14": P("stabletext", "TestC14"),
     "C25": P("stabletext", "TestC25"),
